@@ -76,6 +76,15 @@ class EventDriver:
             if last['flav'] == 'e' or not last['sec'] or last['kind'] == 'nc':
                 want = (want[0], want[1], 0)        # the scripted sampler is not consulted
                 got = (got[0], got[1], 0)
+            elif cls.tries == 0:
+                # the candidates are scripted through a private hook of the interaction class; if the code no longer consults it
+                # (renamed, restructured) the candidates cannot be steered: check only what the property itself says
+                em, had = p.interaction.em_frac, p.interaction.had_frac
+                if not (em >= 0 and had >= 0 and em + had <= 1 + 1e-12):
+                    raise Divergence('shower fractions (unscripted) for %s' % {k: last[k] for k in ('kind', 'flav', 'y', 'sec', 'model')},
+                                     'non-negative, sum <= 1', (em, had))
+                self.unscripted = getattr(self, 'unscripted', 0) + 1
+                return
             if not (abs(got[0] - want[0]) <= 1e-9 and abs(got[1] - want[1]) <= 1e-9) or got[2] != want[2]:
                 raise Divergence('shower fractions (em, had in tenths, tries) for %s' % {k: last[k] for k in ('kind', 'flav', 'y', 'sec', 'cands', 'model')},
                                  want, got)
